@@ -260,7 +260,7 @@ def _run(prop, tier, seed, mod, workdir, t0):
         log("replays: " + ", ".join(o[0] for o in oc))
         nfail = sum(1 for o in oc if o[0] in ("fail", "crash"))
         path = write_replay(prop, cfg, f, {"replays": [o[0] for o in oc], "crashed": crashed})
-        write_evidence(prop, tier, seed, mod, results, t0, violations=1 if nfail else 0, note="failure: " + f["message"][:300], known_open=known_open, regress_n=regress_n)
+        write_evidence(prop, tier, seed, mod, results, t0, violations=1 if nfail else 0, note="failure: " + f["message"][:300], known_open=known_open, regress_n=regress_n, failing=f)
         if nfail >= 1:
             log("case: " + jdump(core.shorten(f["case"]))[:3000])
             log("VIOLATION property=%s replay=%s" % (prop, path))
@@ -318,8 +318,20 @@ def aggregate(results):
     return agg
 
 
-def write_evidence(prop, tier, seed, mod, results, t0, violations=0, note=None, known_open=(), regress_n=0, extra=None):
+def evidence_dir():
+    """evidence/ for runs against /repo; a scratch directory for runs against another tree (mutant calibration must not
+    overwrite the evidence of the real tree)"""
+    if os.path.realpath(B.REPO) == "/repo":
+        return os.path.join(VERIF, "evidence")
+    return os.path.join("/var/tmp", "vf-evidence-alt")
+
+
+def write_evidence(prop, tier, seed, mod, results, t0, violations=0, note=None, known_open=(), regress_n=0, extra=None, failing=None):
     agg = aggregate(results)
+    if failing is not None:
+        # the failing case was executed too: count it and show it
+        agg["evaluations"] += 1
+        agg["samples"].insert(0, {"test": failing.get("test"), "case": core.shorten(failing.get("case")), "failing": True})
     cov = {
         "evaluations": agg["evaluations"],
         "distinct_nontrivial": len(agg["nontrivial"]),
@@ -349,8 +361,9 @@ def write_evidence(prop, tier, seed, mod, results, t0, violations=0, note=None, 
             "known findings (open): " + (", ".join(k["signature"] for k in known_open) or "none")],
         "wall_s": round(time.time() - t0, 2), "violations": violations,
     }
-    os.makedirs(os.path.join(VERIF, "evidence"), exist_ok=True)
-    p = os.path.join(VERIF, "evidence", prop + ".json")
+    edir = evidence_dir()
+    os.makedirs(edir, exist_ok=True)
+    p = os.path.join(edir, prop + ".json")
     with open(p + ".tmp", "w") as f:
         f.write(jdump(ev, indent=1))
     os.rename(p + ".tmp", p)
